@@ -40,6 +40,7 @@ import itertools
 import json
 import math
 import os
+import re
 from fractions import Fraction
 
 import numpy as np
@@ -49,7 +50,7 @@ from runner import Infra, TieBroken
 ID = "C13"
 LEAN_MODULES = ["PyYetiVerif.Props.C13", "PyYetiVerif.Props.C13Text", "PyYetiVerif.Props.C13Dmig", "PyYetiVerif.Props.C13Grid",
                 "PyYetiVerif.Props.C13Cord", "PyYetiVerif.Props.C13DmigX", "PyYetiVerif.Props.C13Fmt", "PyYetiVerif.Props.C13Multi", "PyYetiVerif.Props.C13Values", "PyYetiVerif.Props.C13Uset", "PyYetiVerif.Props.C13Set",
-                "PyYetiVerif.Props.C13ValuesTab", "PyYetiVerif.Audit.C13"]
+                "PyYetiVerif.Props.C13ValuesTab", "PyYetiVerif.Props.C13SetIff", "PyYetiVerif.Audit.C13"]
 AUDIT_FILE = "PyYetiVerif/Audit/C13.lean"
 THEOREMS = [
     "PyYetiVerif.C13." + n
@@ -71,6 +72,7 @@ THEOREMS = [
         "real_field_reads real_field_accuracy real_field_clean tabled1_roundtrip_values grid_roundtrip_values "
         "cord2_roundtrip_values dmig_roundtrip_values dmig_lines_int_instance "
         "uset_bulk_roundtrip_labels uset_bulk_roundtrip_labels_full set_header_split_fails set_roundtrip_iff_partial "
+        "set_header_split1_fails set_item_cut_reads set_item_cut_fails set_roundtrip_iff "
         "dmig_field_fits dmig_terms_in_range "
         "tabled1_all_doubles tabled1_default_eq_before_fix tabled1_default_differs_iff"
     ).split()
@@ -105,7 +107,7 @@ TRUSTED = [
 RULE = (
     "id lists built from run structures (singletons, runs of 2..12, line-filling lengths 0..40, unsorted and "
     "repeated ids, 1..8 digit ids), every start field 1..10, SET max_length 24..72 and short widths that force "
-    "token splits (oracle: every max_length 2..26 x six id lists, round trip iff every token fits), TABLED1 with 0..13 "
+    "token splits (oracle: every max_length 2..26 x six id lists, round trip iff every token fits, and exactly what rdsets returns on a cut token: {} for a cut head, the ids before the cut item followed by the reading of its first max_length-1 characters, or ValueError; streams wtset / rdsets on cut texts: head cut by >= 2 columns, by exactly 1, item cut inside a plain id / inside a / inside THRU / inside b / before its comma), TABLED1 with 0..13 "
     "points in four formats and both widths, DMIG with grid/scalar partial-DOF index sets, forms 1/2/6/9, types 1-4, "
     "integer AND real / complex values of 60 decades, read plain and with expanded / square / both; vecwrite with 1..5 "
     "arguments, each a scalar, a length-1 / length-N / other-length list, tuple or array in every order (ValueError and "
@@ -149,11 +151,7 @@ ASSUMPTIONS = [
     "does not write scalar points (documented: 'CORD2* and GRID cards')",
 ]
 PARTIAL = (
-    "set_roundtrip_iff is proved only as set_roundtrip_iff_partial: 'rdsets(wtset(...)) = {id: ids} iff every token fits "
-    "max_length' holds in Lean for <= always and for => when the token that does not fit is the head `SET n = ` with at "
-    "least two columns missing (set_header_split_fails: rdsets then returns {}); => for a cut ITEM token and for "
-    "len(head) = max_length + 1 is not proved — the equivalence is checked model-free on the real code for every "
-    "max_length 2..26 and the cut lines are tied by the exact-text stream; user-supplied `form` strings of "
+    "user-supplied `form` strings of "
     "wtgrids / wttabled1 other than the defaults stay opaque tokens (reader returns nas_sscanf(token)); rdcord2cards is "
     "modelled up to the twelve numbers per card handed to n2p.build_coords and bulk2uset up to the labels (id, dof, "
     "nasset, cd id and type) and the written coordinates — the geometry of build_coords / addgrid is C14 (tied through the "
@@ -169,7 +167,11 @@ MANIFEST = {
     "written integer field is read back exactly; rdsets(wtset(id, ids, max_length)) = {id: ids} on physical lines for every "
     "non-empty list of non-negative ids (sorted or not, with repeats) and every max_length >= the longest token, for ANY "
     "way of breaking the tokens into lines, and for any number of SET statements between other lines of one file "
-    "(sets_in_file); rdtabled1(wttabled1(...)) for every number of points and both widths; DMIG: card structure, form 6 iff "
+    "(sets_in_file); for every max_length >= 2 the round trip holds IF AND ONLY IF every token fits max_length "
+    "(set_roundtrip_iff), with what rdsets returns instead: {} when the head token `SET n = ` is cut "
+    "(set_header_split_fails, set_header_split1_fails), and when the head fits and an item token is cut, the ids of the items "
+    "before the cut token followed by what _rd_set_line makes of its first max_length - 1 characters, or the ValueError of "
+    "int() (set_item_cut_reads; never {id: ids}: set_item_cut_fails); rdtabled1(wttabled1(...)) for every number of points and both widths; DMIG: card structure, form 6 iff "
     "identical index lists and mirrored matrix, the reader's assignments are EXACTLY the non-zero terms, rddmig(wtdmig(X)) "
     "= X as one statement (sorted duplicate-free index of the non-null rows/columns, every cell = the term, nothing "
     "lost) for forms 1/2/6/9 and types 1-4 on the card values AND on the physical lines — for integer-valued and for "
@@ -195,8 +197,7 @@ MANIFEST = {
     "geometry is C14.",
     "level_note": "Trusted: Lean kernel; propext, Classical.choice, Quot.sound; the Python harness and translator; CPython "
     "integer formatting; C12's float-format model (tied again here by an exact-text stream). Not proved (tied by "
-    "correspondence / oracle only): that a token of wtset cut by a short max_length breaks the round trip (the converse "
-    "direction of set_roundtrip; the oracle checks the iff for max_length 2..26); user-supplied `form` strings other than "
+    "correspondence / oracle only): user-supplied `form` strings other than "
     "the defaults (opaque tokens); n2p.build_coords / addgrid / mkcordcardinfo geometry behind rdcord2cards / bulk2uset / "
     "uset2bulk (C14); FileOK for arbitrary written files (checked per generated file by the model's own decision "
     "procedure); op2 DMIG. Findings: a NEGATIVE value with a three-digit decimal exponent needs 17 characters in '{:16.9E}' — "
@@ -1757,6 +1758,8 @@ REQUIRED = [
     "dmig:form1", "dmig:form2", "dmig:form6", "dmig:form9", "dmig:type1", "dmig:type2", "dmig:type3", "dmig:type4",
     "dmig:kind-f9-unequal", "reader:comma", "reader:fixed", "reader:fixed16", "reader:comment",
     "rdspoints", "rdcsupers", "rdextrn:ok", "rdextrn:error", "rdtabled1:ok", "rdsets:ok", "rdsets:error", "rddmig",
+    "set:cut:head", "set:cut:head-boundary", "set:cut:item-digits", "set:cut:item-thru-prefix", "set:cut:item-error",
+    "rdsets:cut:head", "rdsets:cut:head-boundary", "rdsets:cut:item-digits", "rdsets:cut:item-thru-prefix", "rdsets:cut:item-error",
     "vecw:ok", "vecw:value-error", "vecw:index-error", "vecw:len1-after-lenN",
     "grids:short-8", "grids:short-16", "grids:long-8", "grids:long-16", "grids:one-row-xyz", "grids:len1-vector",
     "grids:ValueError", "grids:defaults", "cord:written", "uset:with-coords", "uset:no-coords",
@@ -1771,6 +1774,101 @@ REQUIRED = [
 ]
 
 
+def _set_tokens(setid, ids):
+    """the tokens of a SET statement, restated (head, one per maximal run, all but the last followed by ', ')"""
+    toks, items, i = ["SET %d = " % setid], [], 0
+    while i < len(ids):
+        j = i
+        while j + 1 < len(ids) and ids[j + 1] == ids[j] + 1:
+            j += 1
+        items.append((ids[i], ids[j]))
+        toks.append(("%d THRU %d" % (ids[i], ids[j]) if j > i else "%d" % ids[i]) + ", ")
+        i = j + 1
+    toks[-1] = toks[-1][:-2]
+    return toks, items
+
+
+def _set_cut_expect(setid, ids, mx):
+    """what rdsets returns on wtset(...) when a token does not fit max_length >= 2, restated from the statement of
+    set_header_split_fails / set_header_split1_fails / set_item_cut_reads WITHOUT the model: ("ok", dict), ("error",)
+    or None when every token fits; second component = the class of the cut"""
+    toks, items = _set_tokens(setid, ids)
+    if all(len(t) <= mx for t in toks):
+        return None, "fits"
+    if len(toks[0]) > mx:
+        return ("ok", {}), ("head-boundary" if len(toks[0]) == mx + 1 else "head")
+    k = next(i for i, t in enumerate(toks[1:]) if len(t) > mx)
+    before = [x for a, b in items[:k] for x in range(a, b + 1)]
+    a, b = items[k]
+    piece = (("%d THRU %d" % (a, b)) if b > a else "%d" % a)[: mx - 1].strip()
+    if piece.isdigit():
+        return ("ok", {setid: before + [int(piece)]}), "item-digits"
+    m = re.fullmatch(r"(\d+) THRU (\d+)", piece)
+    if m:
+        return ("ok", {setid: before + list(range(int(m.group(1)), int(m.group(2)) + 1))}), "item-thru-prefix"
+    return ("error",), "item-error"
+
+
+def _set_cut_cases(ctx):
+    rng = ctx.rng
+    out = []
+    # head token cut: at least two columns / exactly one column too long
+    for sid in (1, 77, 12345, 99999999):
+        h = len("SET %d = " % sid)
+        for mx in (h - 1, h - 2, h - 3, max(2, h - 6), 2):
+            for ids in ([7], [1, 2, 3], [5, 9, 10, 11, 300]):
+                out.append((sid, ids, mx))
+    # item token cut at every position: plain id, a THRU b (inside a, inside ' THRU ', inside b, only ', ' missing)
+    for sid, ids in ((1, [1234567890, 5]), (1, [5, 1234567890]), (3, [3, 1001, 1002, 1003, 9]), (3, [1001, 1002, 1003]),
+                     (12, [7, 100001, 100002, 100003, 100004, 12]), (5, [1, 2, 3, 4, 5, 6, 7, 8, 9, 10, 11, 12345678901, 13]),
+                     (9, [20000000, 20000001, 20000002, 4]), (9, [4, 6, 20000000, 20000001, 20000002])):
+        h = len("SET %d = " % sid)
+        toks, _ = _set_tokens(sid, ids)
+        for mx in range(h, max(len(t) for t in toks)):
+            out.append((sid, ids, mx))
+    for _ in range(ctx.pick(150, 1500)):
+        n = rng.randint(1, 6)
+        ids = []
+        for _ in range(n):
+            a = rng.choice([rng.randint(1, 99), rng.randint(10 ** 5, 10 ** 6), rng.randint(10 ** 8, 10 ** 11)])
+            ids += list(range(a, a + rng.choice([1, 1, 2, 3, 40])))
+        sid = rng.choice([1, 42, 9999])
+        toks, _ = _set_tokens(sid, ids)
+        lo, hi = len(toks[0]), max(len(t) for t in toks)
+        if hi > lo:
+            out.append((sid, ids, rng.randint(lo, hi - 1)))
+    return out
+
+
+def _set_cut_streams(ctx, B):
+    """wtset with a max_length that cuts a token -> the exact text (writer model) and what rdsets makes of it (reader
+    model): ties set_header_split_fails / set_header_split1_fails / set_item_cut_reads to the code"""
+    bulk = _bulk()
+    for sid, ids, mx in _set_cut_cases(ctx):
+        exp, cls = _set_cut_expect(sid, ids, mx)
+        if exp is None:
+            continue
+        text = _write(bulk.wtset, sid, ids, mx)
+        B.add("wtset", "set %d %d %s" % (sid, mx, " ".join(map(str, ids))), {"setid": sid, "ids": ids, "max_length": mx},
+              text, _text_conv(False), nontrivial=True, branch=["set:token-split", "set:cut:" + cls])
+        r = _read(bulk.rdsets, text)
+        impl = "error" if isinstance(r, str) else [(int(k), [int(x) for x in v]) for k, v in r.items()]
+
+        def conv(rep):
+            if rep == "error":
+                return rep
+            if rep == "":
+                return []
+            res = []
+            for item in rep.split(";"):
+                k, c = item.split("=")
+                res.append((_val_model(k)[1], [int(x) for x in c.split()]))
+            return res
+
+        B.add("rdsets", "rdsets " + _hex(text), {"text": text, "cut": cls}, impl, conv, nontrivial=True,
+              branch="rdsets:cut:" + cls)
+
+
 def correspondence(ctx):
     B = _Batch()
     texts = []
@@ -1779,6 +1877,7 @@ def correspondence(ctx):
     _real_streams(ctx, B, texts)
     _reader_streams(ctx, B, texts)
     _grid_reader_streams(ctx, B, texts)
+    _set_cut_streams(ctx, B)
     _multi_streams(ctx, B)
     _uset_table_streams(ctx, B)
     B.run(ctx)
@@ -1833,6 +1932,14 @@ def _o_ids(kind, case):
         if not fits and got == want:
             return ("set-roundtrip-with-split-token", "a token longer than max_length was cut into pieces and the set was still read "
                     "back: the stated condition (round trip iff every token fits) is not exact", text[:200], "a different result")
+        if not fits and case["max_length"] >= 2 and all(i >= 0 for i in ids) and case["setid"] >= 0:
+            exp, cls = _set_cut_expect(case["setid"], list(ids), case["max_length"])
+            gotc = ("error",) if isinstance(got, str) else ("ok", {int(k): [int(x) for x in v] for k, v in got.items()})
+            if exp is not None and gotc != exp:
+                return ("set-cut-token-reads-differently", "a token longer than max_length was cut (%s): rdsets does not return what "
+                        "the statement of set_header_split_fails / set_header_split1_fails / set_item_cut_reads says" % cls,
+                        gotc if gotc[0] == "error" else {k: v[:30] for k, v in gotc[1].items()},
+                        exp if exp[0] == "error" else {k: v[:30] for k, v in exp[1].items()})
     elif kind == "spoint":
         text = _write(bulk.wtspoints, ids)
         if text.startswith("error"):
